@@ -1043,9 +1043,10 @@ theorem cff_order_independent (v2 : Bool) (ift table : Option Bytes) (gps gps' :
 /-- **cff_grouping_independent.**  The arm in two steps (`gps1`, then `gps2` on the result) against
 `gps1 ++ gps2` in one go: both results are `cffEmit v2 (b.take at) (maxGid+1) t (encodeOffs t os) data`
 — the same bytes before the charstrings INDEX, the same count, the same decoded offsets `os`, the same
-charstring data — with CFF offset types `t2`, `t12` that may differ: exactly known finding
-C18-offset-width-history-dependent (a larger intermediate table leaves a wider offSize behind; see
-the example below).  Equal offSize ⇒ equal bytes. -/
+charstring data — with CFF offset types `t2`, `t12` that may differ only in the way known finding
+C18-offset-width-history-dependent says: the two-step offSize is never narrower than the one-call
+offSize (`t12.width ≤ t2.width`), and when the intermediate table keeps the base table's offSize (no
+widening in the first step) the two results are byte-identical.  Equal offSize ⇒ equal bytes. -/
 theorem cff_grouping_independent (v2 : Bool) (ift : Option Bytes) (b : Bytes) (gps1 gps2 : List GlyphPatches)
     (m : Nat) (out1 out2 out12 : Bytes) (hm : m + 1 < 65536)
     (hasc : ∀ at_ ix t0, iftCharstringsOffset ift v2 = some at_ → cffView v2 b at_ m = .ok (ix, t0) →
@@ -1058,10 +1059,13 @@ theorem cff_grouping_independent (v2 : Bool) (ift : Option Bytes) (b : Bytes) (g
       IsCffType t2 ∧ IsCffType t12 ∧
       out2 = cffEmit v2 (b.take at_) (m + 1) t2 (encodeOffs t2 os) data ∧
       out12 = cffEmit v2 (b.take at_) (m + 1) t12 (encodeOffs t12 os) data ∧
-      (t2.width = t12.width → out2 = out12) := by
-  obtain ⟨at_, os, data, t2, t12, a1, a2, a3, a4, a5, a6⟩ :=
+      t12.width ≤ t2.width ∧
+      (t2.width = t12.width → out2 = out12) ∧
+      (∀ ix t0, cffView v2 b at_ m = .ok (ix, t0) →
+        (out1.drop (at_ + cffCountWidth v2)).headD 0 = t0.width → out2 = out12) := by
+  obtain ⟨at_, os, data, t2, t12, a1, a2, a3, a4, a5, a6, a7, a8⟩ :=
     cffPatch_two_step v2 ift b gps1 gps2 m out1 out2 out12 hm hasc hagree h1 h2 h12
-  refine ⟨at_, os, data, t2, t12, a1, a2, a3, a4, a5, a6, ?_⟩
+  refine ⟨at_, os, data, t2, t12, a1, a2, a3, a4, a5, a6, a7, ?_, a8⟩
   intro hw
   have := IsCffType.eq_of_width a3 a4 hw
   subst this
